@@ -62,3 +62,10 @@ Example C06_example :
   fst (writes_sizes false MGcm (mkW 2000 0) [3000; 0; 20000]%Z) =
   [[1179; 1821]; []; [3537; 4716; 5895; 5852]]%Z.
 Proof. vm_compute. reflexivity. Qed.
+
+(* the numbers and tables this property's model uses are the ones the sources declare: Model/GenConsts.v is
+   regenerated from the repository under test (tools/consts) before every build *)
+From V Require Import Model.GenConsts Proofs.TieC06.
+Theorem C06_constants_are_the_sources : TieC06.tie.
+Proof. exact TieC06.tie_holds. Qed.
+Print Assumptions C06_constants_are_the_sources.
